@@ -10,6 +10,7 @@
 
 using namespace vf;
 
+struct PageSpec { cola::PageBoundaryConstraints *cc; std::vector<unsigned> ids; };
 struct AlignSpec { int dim; std::vector<unsigned> ids; std::vector<double> off; cola::AlignmentConstraint *cc; };
 struct CSpec {
     std::string type; int dim = 0; cola::CompoundConstraint *cc = nullptr;
@@ -72,9 +73,21 @@ static void case_layout(const Args &a, long idx, bool wantDesc, CaseResult &res,
     bool satisfiable = overlapMode ? true : R.coin(0.6);
     std::vector<double> hx(n), hy(n);
     { std::vector<int> cells; int side = (int)std::ceil(std::sqrt((double)n)) + 2; for (int c = 0; c < side * side; c++) cells.push_back(c); R.shuffle(cells); for (unsigned i = 0; i < n; i++) { hx[i] = (cells[i] % side) * 60.0; hy[i] = (cells[i] / side) * 60.0; } }
-    cola::CompoundConstraints ccs; std::vector<CSpec> specs; std::vector<AlignSpec> als;
+    cola::CompoundConstraints ccs; std::vector<CSpec> specs; std::vector<AlignSpec> als; std::vector<PageSpec> pages;
     struct CG { cola::CompoundConstraints &c; ~CG() { for (auto p : c) delete p; } } cg{ccs};
     auto hp = [&](unsigned i, int dim) { return dim == 0 ? hx[i] : hy[i]; };
+    // a "locked pair": two nodes tied together in both dimensions by satisfiable user constraints (an equality separation in x that is smaller than their widths
+    // and an alignment in y) so that, with overlap avoidance, their overlap cannot be removed in either dimension; judged straight after makeFeasible()
+    bool lockedPair = !overlapMode && n >= 2 && R.coin(a.tier == "thorough" ? 0.002 : 0.012);   // about 4% of these run into the recorded non-termination F7, one watchdog period each
+    if (lockedPair) {
+        unsigned u = (unsigned)R.ri(0, n - 1), v = (unsigned)R.ri(0, n - 2); if (v >= u) v++;
+        double gx = R.rd(0, 0.4) * (W[u] + W[v]) / 2, oy = R.rd(-0.4, 0.4) * (H[u] + H[v]) / 2; int d0 = (int)R.ri(0, 1);   // d0: the dimension of the separation
+        (d0 ? hy : hx)[v] = (d0 ? hy : hx)[u] + gx; (d0 ? hx : hy)[v] = (d0 ? hx : hy)[u] + oy;
+        CSpec c; c.type = "separation"; c.dim = d0; c.eq = true; c.gap = gx; c.l = u; c.r = v; c.cc = new cola::SeparationConstraint((vpsc::Dim)d0, u, v, gx, true); ccs.push_back(c.cc); specs.push_back(c);
+        AlignSpec al; al.dim = 1 - d0; cola::AlignmentConstraint *ac = new cola::AlignmentConstraint((vpsc::Dim)(1 - d0), 0.0); al.ids = {u, v}; al.off = {0.0, oy}; ac->addShape(u, 0.0); ac->addShape(v, oy); al.cc = ac; als.push_back(al); ccs.push_back(ac);
+        CSpec c2; c2.type = "alignment"; c2.dim = 1 - d0; c2.align = (int)als.size() - 1; c2.cc = ac; specs.push_back(c2);
+        res.count("locked_pair_cases");
+    }
     int ncon = n >= 2 ? (int)R.ri(0, overlapMode ? 4 : 8) : 0;
     bool clusters = overlapMode && n >= 4 && R.coin(0.4);
     for (int k = 0; k < ncon; k++) {
@@ -146,10 +159,11 @@ static void case_layout(const Args &a, long idx, bool wantDesc, CaseResult &res,
             if (c.ids.size() < 2) continue;
             for (auto id : c.ids) { c.relx.push_back(rs[id]->getCentreX() - rs[c.ids[0]]->getCentreX()); c.rely.push_back(rs[id]->getCentreY() - rs[c.ids[0]]->getCentreY()); }
             c.cc = new cola::FixedRelativeConstraint(rs, c.ids, R.coin(0.3)); ccs.push_back(c.cc); specs.push_back(c);
-        } else if (t == 8 && !overlapMode) {   // page boundary: soft ("balloons out"), included in the workload, not judged
-            cola::PageBoundaryConstraints *pb = new cola::PageBoundaryConstraints(0, 500, 0, 500, 100.0);
-            for (unsigned i = 0; i < n; i++) if (R.coin(0.5)) pb->addShape(i, W[i] / 2, H[i] / 2);
-            ccs.push_back(pb); res.count("page_boundary_constraints(not judged: soft)");
+        } else if (t == 8 && !overlapMode) {   // page boundary: the page itself is soft ("balloons out"); its members must lie within the ACTUAL margins it reports
+            bool tight = R.coin(0.5); double lo = tight ? R.rd(100, 200) : 0, hi = tight ? lo + R.rd(60, 200) : 500;
+            cola::PageBoundaryConstraints *pb = new cola::PageBoundaryConstraints(lo, hi, lo, hi, tight ? R.rd(1, 1000) : 100.0);
+            PageSpec ps; ps.cc = pb; for (unsigned i = 0; i < n; i++) if (R.coin(0.5)) { pb->addShape(i, W[i] / 2, H[i] / 2); ps.ids.push_back(i); }
+            ccs.push_back(pb); pages.push_back(ps); res.count("page_boundary_constraints");
         }
     }
     // a lone fixed-relative case in the satisfiable regime (no other constraints on its members) is exercised separately
@@ -163,16 +177,18 @@ static void case_layout(const Args &a, long idx, bool wantDesc, CaseResult &res,
     if (clusters) {
         root = new cola::RootCluster();
         int nc = (int)R.ri(1, 3); std::vector<unsigned> ids; for (unsigned i = 0; i < n; i++) ids.push_back(i); R.shuffle(ids); size_t pos = 0;
-        std::vector<cola::RectangularCluster *> objs;
+        std::vector<cola::RectangularCluster *> objs; bool forceChild = false;
         for (int c = 0; c < nc && pos + 2 <= ids.size(); c++) {
             ClusterSpec cs; int sz = (int)R.ri(1, std::max(1, (int)std::min<size_t>(4, (ids.size() - pos) / (size_t)(nc - c))));
+            // a cluster without nodes of its own, holding only the next cluster
+            bool emptyParent = !forceChild && c + 1 < nc && pos + 2 <= ids.size() && R.coin(0.2); if (emptyParent) { sz = 0; res.count("clusters_holding_only_a_child_cluster"); }
             cola::RectangularCluster *rc = new cola::RectangularCluster();
             for (int q = 0; q < sz; q++) { cs.nodes.push_back(ids[pos]); clusterOf[ids[pos]] = (int)cls.size(); rc->addChildNode(ids[pos]); pos++; }
             if (R.coin(0.5)) { cs.padding = (double)R.ri(1, 8); rc->setPadding(cs.padding); }
             if (R.coin(0.3)) { cs.margin = (double)R.ri(1, 6); rc->setMargin(cs.margin); }
             // nested: make this cluster a child of the previous one sometimes
-            if (!objs.empty() && R.coin(0.3)) { cs.parent = (int)cls.size() - 1; objs.back()->addChildCluster(rc); cls[cs.parent].children.push_back((int)cls.size()); } else root->addChildCluster(rc);
-            objs.push_back(rc); cls.push_back(cs);
+            if (!objs.empty() && (forceChild || R.coin(0.3))) { cs.parent = (int)cls.size() - 1; objs.back()->addChildCluster(rc); cls[cs.parent].children.push_back((int)cls.size()); } else root->addChildCluster(rc);
+            objs.push_back(rc); cls.push_back(cs); forceChild = emptyParent;
         }
         for (unsigned i = 0; i < n; i++) if (clusterOf[i] < 0 && R.coin(0.7)) root->addChildNode(i);
     }
@@ -189,6 +205,7 @@ static void case_layout(const Args &a, long idx, bool wantDesc, CaseResult &res,
     if (feasibleOnly) { driver = 4; res.count(satisfiable ? "makeFeasible_only_cases_satisfiable" : "makeFeasible_only_cases_contradictory"); }
     static const char *dn[] = {"run", "makeFeasible+run", "runOnce*k+run", "majorization.run", "makeFeasible"};
     bool avoidOverlaps = overlapMode || ((driver <= 1 || driver == 4) && R.coin(driver == 4 ? 0.7 : 0.3)); bool neighbourStress = R.coin(0.3);
+    if (lockedPair) { if (driver == 4) res.obs[std::string("makeFeasible_only_cases_") + (satisfiable ? "satisfiable" : "contradictory")]--; driver = 4; avoidOverlaps = true; res.count(satisfiable ? "locked_pair_cases_satisfiable" : "locked_pair_cases_contradictory"); }
     if (driver == 3) avoidOverlaps = false;
     double ideal = R.rd(40, 120);
     // description
@@ -248,8 +265,16 @@ static void case_layout(const Args &a, long idx, bool wantDesc, CaseResult &res,
             double v = evaluate(c, als, rs);
             res.maxi("max_violation_unexcused", v);
             // signature of F49: contradictory constraint set, the layout did report SOME constraint unsatisfiable, but not the one that ends up violated
-            if (v > 1e-4) { res.violate((!satisfiable && !excused.empty()) ? std::string("violated-and-not-reported[contradictory-set,another-constraint-was-reported]") : (satisfiable && avoidOverlaps && !excused.empty()) ? std::string("violated-and-not-reported[satisfiable-user-constraints-with-overlap-avoidance,other-constraints-were-reported]") : std::string(c.type) + ":violated-and-not-reported[" + dn[driver] + (driver == 4 ? (satisfiable ? ",satisfiable-set" : ",contradictory-set") : "") + (driver != 4 && satisfiable && negGapSep ? ",set-has-a-negative-gap-separation" : "") + "]", JObj().num("violation", v).raw("constraint", cjson(c, als)).raw("reported_unsatisfiable", infoj.done()).raw("final_centres", fin.done()).raw("case", desc).done()); }
+            if (v > 1e-4 && lockedPair) { res.violate(std::string("violated-and-not-reported[makeFeasible,") + (satisfiable ? "satisfiable-set" : "contradictory-set") + ",two-overlapping-nodes-tied-in-both-dimensions]", JObj().num("violation", v).raw("constraint", cjson(c, als)).raw("reported_unsatisfiable", infoj.done()).raw("final_centres", fin.done()).raw("case", desc).done()); }
+            else if (v > 1e-4) { res.violate((!satisfiable && !excused.empty()) ? std::string("violated-and-not-reported[contradictory-set,another-constraint-was-reported]") : (satisfiable && avoidOverlaps && !excused.empty()) ? std::string("violated-and-not-reported[satisfiable-user-constraints-with-overlap-avoidance,other-constraints-were-reported]") : std::string(c.type) + ":violated-and-not-reported[" + dn[driver] + (driver == 4 ? (satisfiable ? ",satisfiable-set" : ",contradictory-set") : "") + (driver != 4 && satisfiable && negGapSep ? ",set-has-a-negative-gap-separation" : "") + "]", JObj().num("violation", v).raw("constraint", cjson(c, als)).raw("reported_unsatisfiable", infoj.done()).raw("final_centres", fin.done()).raw("case", desc).done()); }
         }
+        // page boundaries: every member lies between the margins the constraint reports after the layout
+        // (not after makeFeasible() alone: the margins are only refreshed by the descent steps of run())
+        for (auto &pg : pages) { if (excused.count(pg.cc) || driver == 4) continue;
+            for (int d = 0; d < 2; d++) { double lo = pg.cc->getActualLeftMargin((vpsc::Dim)d), hi = pg.cc->getActualRightMargin((vpsc::Dim)d);
+                for (auto v : pg.ids) { double c = d ? rs[v]->getCentreY() : rs[v]->getCentreX(), h = (d ? H[v] : W[v]) / 2; res.count("page_boundary_members_checked"); double out = std::max(lo + h - c, c + h - hi);
+                    res.maxi("max_page_boundary_excess", out);
+                    if (out > 1e-4) { res.violate(std::string("page-boundary:member-outside-the-actual-margins[") + dn[driver] + "]", JObj().i("node", v).i("dim", d).num("actual_low_margin", lo).num("actual_high_margin", hi).num("centre", c).num("half_extent", h).num("outside_by", out).raw("final_centres", fin.done()).raw("case", desc).done()); d = 2; break; } } } }
         if (satisfiable && !excused.empty()) res.count("satisfiable_cases_with_reports(observation)");
         return;
     }
